@@ -299,8 +299,8 @@ func c13Gen(r *rand.Rand, n int, tier string) []string {
 			case k < 18:
 				hasSched = true
 				c.ConditionType = data.PointValueSchedule
-				c.Start = pick(r, []string{"00:00", "08:30", "23:00", "12:00"})
-				c.End = pick(r, []string{"00:00", "09:00", "01:00", "12:00", "17:45"})
+				c.Start = pick(r, []string{"00:00", "08:30", "23:00", "12:00", "2:30", "22:45"})
+				c.End = pick(r, []string{"00:00", "09:00", "01:00", "12:00", "17:45", "5:00", "1:15"})
 				if r.Intn(2) == 0 {
 					for d := 0; d < 7; d++ {
 						c.Weekdays = append(c.Weekdays, r.Intn(2) == 0)
@@ -357,6 +357,21 @@ func c13Gen(r *rand.Rand, n int, tier string) []string {
 		var evs []string
 		for e := 0; e < 1+r.Intn(6); e++ {
 			now := base + int64(r.Intn(4*86400))*1e9
+			if hasSched && r.Intn(2) == 0 {
+				// aim at the edges of a schedule window: its start or end time of day, give or take up to half an hour
+				var hm []string
+				for _, c := range rule.Conditions {
+					if c.ConditionType == data.PointValueSchedule {
+						hm = append(hm, c.Start, c.End)
+					}
+				}
+				var h, m int
+				if _, err := fmt.Sscanf(pick(r, hm), "%d:%d", &h, &m); err == nil {
+					day := int64(1686787200) + int64(r.Intn(4))*86400 // 2023-06-15 00:00:00 UTC and the next three days
+					off := pick(r, []int64{-1800, -900, -60, -1, 0, 1, 60, 900, 1799})
+					now = (day + int64(h)*3600 + int64(m)*60 + off) * 1e9
+				}
+			}
 			switch k := r.Intn(12); {
 			case k < 8:
 				var pts []string
